@@ -264,6 +264,20 @@ pub fn peek<P: SizedPayload>(h: &H<P>) -> tok::Peek {
     }
 }
 
+/// run `f` on the value through the handle (None for kinds that only expose a trait object)
+pub fn with_ref<P: SizedPayload, R>(h: &H<P>, f: impl FnOnce(&P) -> R) -> Option<R> {
+    Some(match h {
+        H::Arc(a) => f(a),
+        H::Off(o) => f(o),
+        H::U1(u) => f(u.as_first()?.get()),
+        H::U2(u) => f(u.as_second()?.get()),
+        H::Uniq(u) => f(u),
+        H::Raw(p) => f(unsafe { &**p }),
+        H::Hs(h) => f(&h.slice),
+        _ => return None,
+    })
+}
+
 /// every count accessor available for the kind: (accessor name, value)
 pub fn counts<P: SizedPayload>(h: &H<P>) -> Vec<(&'static str, usize)> {
     match h {
